@@ -34,8 +34,9 @@ def _events(st, tier):
     if st.cfg["a"]:
         ev.append("calib_a")
         ev.append("calib_s")  # default Calibration(): streamlining may switch some activation qtypes to None
-    for s in SAVERS:
-        for t in TARGETS:
+    big = st.cfg["model"].startswith("big_")
+    for s in (SAVERS if not big else ["pickle", "safetensors"]):
+        for t in (TARGETS if not big else ["same", "requantize"]):
             ev.append(f"cycle:{s}:{t}")
     return ev
 
@@ -133,9 +134,9 @@ def _sd_equal(a, b):
 
 
 def _explore(cfg, tier, only=None):
-    depth = 3 if tier == "quick" else 4
+    depth = cfg.get("depth") or (3 if tier == "quick" else 4)
     viol = []
-    counters = {"cycles": 0}
+    counters = {"cycles": 0, "unaligned_payloads": 0}
 
     def on_transition(hist, ev, st):
         if only is not None and (hist != only["history"] or ev != only["event"]):
@@ -177,6 +178,12 @@ def _explore(cfg, tier, only=None):
             viol.append(violation(PID, case, dict(fields, sub="load_raised"), f"load_raised: loading into a {target} model raised {type(e).__name__}: {str(e)[:240]} after {hist} ({cfg})"))
             return None
         try:
+            for _, qm in models.qmodules(st.model):
+                w = qm.weight
+                d = getattr(w, "_data", None)
+                d = getattr(d, "_data", d)
+                if isinstance(d, torch.Tensor) and d.data_ptr() % 16 != 0:
+                    counters["unaligned_payloads"] += 1
             h2 = lifecycle.model_hash(st.model)
             if h2 != ref_hash:
                 viol.append(violation(PID, case, dict(fields, sub="content_differs"), f"content_differs: model loaded through {saver}->{target} differs from the saved one (codes/scales/qtypes/group sizes) after {hist} ({cfg})"))
@@ -196,6 +203,7 @@ def _explore(cfg, tier, only=None):
 
     res = lifecycle.bfs_local(lambda: St(cfg), lambda st: _events(st, tier), _apply, lambda st: lifecycle.model_hash(st.model), on_transition, depth)
     res["cycles"] = counters["cycles"]
+    res["unaligned_payloads"] = counters["unaligned_payloads"]
     return res, viol
 
 
@@ -206,6 +214,13 @@ def _cfgs(tier):
             for a in (None, "qint8", "qfloat8_e4m3fn"):
                 for dt in ("float32", "float16", "bfloat16"):
                     out.append({"model": model, "w": w, "a": a, "dt": dt})
+    # size ladder: large layers (block-wise readers/writers, kernels chosen by size or alignment), shallow histories
+    for model in ("big_lin", "big_pair", "big_k25", "big_k27"):
+        for w in ("qint8", "qint4") if not model.startswith("big_k") else ("qint8",):
+            for a, dt in ((None, "float32"), ("qint8", "float32")) + ((("qint8", "float16"), (None, "bfloat16")) if tier == "thorough" else ()):
+                if model.startswith("big_k") and a is None:
+                    continue
+                out.append({"model": model, "w": w, "a": a, "dt": dt, "depth": 3 if model.startswith("big_k") else 2})
     return out
 
 
@@ -219,7 +234,7 @@ def run_task(task):
     for v in viol:
         seen.setdefault(str(sorted(v["fields"].items())), v)
     out = {"evals": res["transitions"], "nontrivial": res["cycles"], "points": res["states"], "calls": res["transitions"], "violations": list(seen.values())[:40], "nviol": len(viol),
-           "counters": {"frontier_emptied": int(res["frontier_emptied"]), "unexpanded": res["unexpanded"]}, "samples": []}
+           "counters": {"frontier_emptied": int(res["frontier_emptied"]), "unexpanded": res["unexpanded"], "unaligned_payloads": res["unaligned_payloads"]}, "samples": []}
     if task["cfg"] == {"model": "wide", "w": "qint4", "a": "qint8", "dt": "float16"}:
         out["samples"] = [{"config": task["cfg"], "history": h} for h in res["samples"]] or [{"config": task["cfg"], "history": ["freeze", "cycle:safetensors:requantize"]}]
     return out
@@ -240,6 +255,8 @@ def coverage(agg, tier, tasks):
 
     if agg.nontrivial == 0:
         raise HarnessError("vacuity guard: no save/load cycle executed")
+    if agg.counters.get("unaligned_payloads", 0) == 0:
+        raise HarnessError("vacuity guard: no loaded payload was unaligned (safetensors mmap offsets), alignment-dependent kernels not exercised")
     return {
         "rule": RULE,
         "states": agg.points,
@@ -249,5 +266,6 @@ def coverage(agg, tier, tasks):
         "configs_whose_state_space_saturated": agg.counters.get("frontier_emptied", 0),
         "unexpanded_frontier_states": agg.counters.get("unexpanded", 0),
         "depth": 3 if tier == "quick" else 4,
+        "loaded_payloads_not_16_byte_aligned": agg.counters.get("unaligned_payloads", 0),
         "exhaustive": True,
     }
